@@ -53,7 +53,7 @@ Book(r, cs2) ==
   /\ cs' = cs2
   /\ last' = r
   /\ gs' = GsNext(r, metas, gs, cs2)
-  /\ xs' = XsNext(r, cfgs, metas, xs, usedK, cs)
+  /\ xs' = XsNext(r, cfgs, metas, gs, xs, usedK, cs)
   /\ usedK' = UsedNext(r, metas, usedK)
   /\ pm' = PmNext(r, metas, pm)
   /\ UNCHANGED <<cfgs, metas>>
